@@ -8,4 +8,5 @@ ReadFaults  == {"List", "Load"}
 AllFaults   == {"List", "Load", "Save", "Remove"}
 WriteFaults == {"Save", "Remove"}
 C13Faults   == {"List", "Save", "SaveAfter", "Remove"}
+SaveFault   == {"Save"}
 =============================================================================
